@@ -30,9 +30,10 @@ def budget_s(tier):
 
 
 # (n, b, kinds, depth, min_shorts, orient_mode)
+KINDS_T7 = KINDS_T + ("LI",)      # lossy current sources too (they count as voltage sources for the value-based predicates)
 LEVELS_QUICK = [
-    (2, 1, KINDS_T, 2, 0),
-    (2, 2, KINDS_T, 2, 0),
+    (2, 1, KINDS_T7, 2, 0),
+    (2, 2, KINDS_T7, 2, 0),
     (2, 3, KINDS_T, 2, 0),
     (3, 2, KINDS_T, 2, 0),
     (3, 3, ("Z", "V", "short", "open", "I"), 1, 0),
@@ -40,8 +41,8 @@ LEVELS_QUICK = [
     (4, 4, ("Z", "V", "short"), 1, 3),
 ]
 LEVELS_THOROUGH = [
-    (2, 1, KINDS_T, 3, 0),
-    (2, 2, KINDS_T, 3, 0),
+    (2, 1, KINDS_T7, 3, 0),
+    (2, 2, KINDS_T7, 3, 0),
     (2, 3, KINDS_T, 2, 0),
     (3, 2, KINDS_T, 2, 0),
     (3, 3, ("Z", "V", "short", "open", "I"), 2, 0),
